@@ -238,7 +238,16 @@ pub struct ModelSpec {
 #[derive(Clone, Debug, PartialEq, Eq, Serialize, Deserialize)]
 pub enum EntryKind {
     Standard { blocks: Vec<BlockSpec>, fill: u64 },
-    Texture { header_len: usize, mips: Vec<Vec<BlockSpec>>, fill: u64 },
+    /// `layout`: bit 0 = 128 unused bytes in front of every mip but the first, bit 1 = the last
+    /// two mips sit in the data area in the opposite order (each mip is found through its own
+    /// offset field; mip 0 stays first because the texture header ends where it starts)
+    Texture {
+        header_len: usize,
+        mips: Vec<Vec<BlockSpec>>,
+        fill: u64,
+        #[serde(default)]
+        layout: u8,
+    },
     Model(ModelSpec),
 }
 
@@ -323,33 +332,46 @@ pub fn encode_entry(kind: &EntryKind, info: &mut PackInfo) -> (EncodedFile, Expe
                 Expect { kind: "standard", body: content, sections: vec![] },
             )
         }
-        EntryKind::Texture { header_len, mips, fill } => {
+        EntryKind::Texture { header_len, mips, fill, layout } => {
             let tex_header = Bytes::Fill { len: *header_len, fill: fill ^ 0x7e } .get();
             let mut body = Enc::new();
             body.bytes(&tex_header);
             let mut expect = tex_header.clone();
-            let mut mip_rows: Vec<(u32, u32, u32, u32, u32)> = vec![];
+            // block-size table and mip rows are in mip order; the data area may hold the last
+            // two mips in the opposite order
             let mut sub_sizes: Vec<u16> = vec![];
+            let mut firsts: Vec<u32> = vec![];
+            let mut contents: Vec<Vec<u8>> = vec![];
             for (m, blocks) in mips.iter().enumerate() {
-                let content = section_bytes(blocks, *fill, 10 + m as u64);
+                firsts.push(sub_sizes.len() as u32);
+                contents.push(section_bytes(blocks, *fill, 10 + m as u64));
+                sub_sizes.extend(std::iter::repeat(0u16).take(blocks.len()));
+            }
+            let mut physical: Vec<usize> = (0..mips.len()).collect();
+            if layout & 2 != 0 && mips.len() >= 3 {
+                let n = mips.len();
+                physical.swap(n - 1, n - 2);
+            }
+            let mut mip_rows: Vec<(u32, u32, u32, u32, u32)> = vec![(0, 0, 0, 0, 0); mips.len()];
+            for (pos, &m) in physical.iter().enumerate() {
+                let blocks = &mips[m];
+                let content = &contents[m];
+                if pos > 0 && layout & 1 != 0 {
+                    body.bytes(&[0xEE; 128]);
+                }
                 let start = body.pos();
-                let first = sub_sizes.len() as u32;
                 let mut at = 0;
                 for (i, b) in blocks.iter().enumerate() {
                     body.set_prefix(&format!("m{}b{}.", m, i));
                     let (stored, bt) = encode_block(&mut body, &content[at..at + b.len], b.mode);
                     note(info, b.mode, bt, b.len);
-                    sub_sizes.push(stored as u16);
+                    sub_sizes[firsts[m] as usize + i] = stored as u16;
                     at += b.len;
                 }
-                mip_rows.push((
-                    start as u32,
-                    (body.pos() - start) as u32,
-                    content.len() as u32,
-                    first,
-                    blocks.len() as u32,
-                ));
-                expect.extend_from_slice(&content);
+                mip_rows[m] = (start as u32, (body.pos() - start) as u32, content.len() as u32, firsts[m], blocks.len() as u32);
+            }
+            for c in &contents {
+                expect.extend_from_slice(c);
             }
             let mut e = Enc::new();
             let hl = (24 + 20 * mips.len() + 2 * sub_sizes.len() + 127) & !127;
